@@ -6,7 +6,7 @@ self-test can swap one module for an edited copy without touching the disk.
 from __future__ import annotations
 import ast, os, copy
 from .report import REPO, AnalysisError
-from .canon import canonicalise_program, accumulate_to_comprehension
+from .canon import canonicalise_program, accumulate_to_comprehension, accumulate_to_sum
 
 PKG = "inference"
 
@@ -390,8 +390,8 @@ class Program:
         canonicalise_program(trees, known_by_rel, params_by_rel)
         for rel, tree in trees.items():
             inline_new_temps(tree, rel)
-            if accumulate_to_comprehension(tree):
-                inline_new_temps(tree, rel)       # a list that is now bound once may be a single-use temporary
+            if accumulate_to_comprehension(tree) + accumulate_to_sum(tree):
+                inline_new_temps(tree, rel)       # a list / total that is now bound once may be a single-use temporary
             normalise_locals(tree, rel)
             name = rel[:-3].replace("/", ".")
             if name.endswith(".__init__"):
